@@ -171,7 +171,14 @@ void Server::Impl::onTcpReceived(const TcpServer::ConnToken &ct, Buffer &buff)
                 conn->close_index = conn->req_index;
                 LogDbg("mark close at %d", conn->close_index);
 
-                tcp_server_.shutdown(ct, SHUT_RD);
+                /**
+                 * Do not shutdown(SHUT_RD) here: it makes the socket readable with EOF in
+                 * the next loop pass, TcpConnection takes that for "peer closed" and drops
+                 * the connection, i.e. before a handler that completes later has committed
+                 * its respond and before the unsent rest of a large respond is written.
+                 * Data arriving after the closing request is discarded at the top of this
+                 * function; the connection is closed in onTcpSendCompleted().
+                 */
             }
 
             auto sp_ctx = make_shared<Context>(wp_parent_, ct, conn->req_index++, req);
